@@ -366,7 +366,7 @@ def body_chain(case):
 
 def strat_chain():
     v = st.one_of(st.sampled_from(_LATTICE), st.just(NAN))
-    return st.tuples(st.lists(v, min_size=1, max_size=20), st.sampled_from(_LATTICE)).map(
+    return st.tuples(st.lists(v, min_size=1, max_size=20), st.sampled_from(_LATTICE[1:7])).map(
         lambda p: {"vals": p[0], "thr": p[1]})
 
 
@@ -382,8 +382,8 @@ RULE = ("markers: every 0/1 marker vector of length 1..12 (8190), each run with 
 
 SUBCHECKS = [
     SubCheck("markers", body_markers, enum=enum_markers, rule="all 2^n marker vectors, n=1..12", qshards=8),
-    SubCheck("split_random", body_split, strategy=strat_split, quick=3000, thorough=60000, qshards=6),
+    SubCheck("split_random", body_split, strategy=strat_split, quick=3000, thorough=48000, qshards=6),
     SubCheck("seg_grid", _check_seg, enum=enum_grid, rule="all below/equal/above/NaN patterns, k=1..3", qshards=2, tshards=2),
-    SubCheck("seg_random", _check_seg, strategy=strat_seg, quick=6000, thorough=150000, qshards=6),
+    SubCheck("seg_random", _check_seg, strategy=strat_seg, quick=6000, thorough=120000, qshards=6),
     SubCheck("chain", body_chain, strategy=strat_chain, quick=1500, thorough=30000),
 ]
